@@ -5,7 +5,7 @@ CFG = {
     "engine": "opseq",
     "engines": ["opseq", "mapord"],
     "technique": "explicit exploration of all operation histories up to a depth bound on the real node graph (transition function = the implementation) against a reference evaluator + dirty-set model, each history re-executed under every single deviation of Go map iteration order (runtime overlay seam)",
-    "level_text": "Every history over an 18-operation alphabet (reads of every node, parameter updates of a parameter.Value and a nodes.Value leaf, seven re-wirings, array-slot connect/disconnect) is executed on the real nodes.Struct graph (chain, diamond, shared sub-graph, fan-in with two scalar and an array input) from three starting states (fresh, warmed-up, empty array input); after every transition the value read must equal a from-scratch reference evaluation, the set of processors that ran must lie inside the reference's dirty set (each at most once, only inside the read's closure) and every node's version must move by exactly its execution count. Map iteration order - which the graph uses to enumerate dependencies - is an owned environment answer: every history is also executed with each single map iteration started at every alternative position. The graph also holds a parameter.File leaf (a parameter kind with a version counter of its own) with two nodes below it, and its processors fail (error, empty value) on one input value: a failed node has executed like any other. Quick: depth 4; thorough: depth 6 (deviations to depth 5, deviation pairs to depth 3).",
+    "level_text": "Every history over a 33-operation alphabet (reads of every node, parameter updates of parameter.Value, nodes.Value and parameter.File leaves incl. a rejected update and a value the processors fail on, re-wirings incl. to an equal twin producer, array-slot connect/disconnect) is executed on the real nodes.Struct graph (chain, diamond, shared sub-graph, fan-in with two scalar and an array input) from three starting states (fresh, warmed-up, empty array input); after every transition the value read must equal a from-scratch reference evaluation, the set of processors that ran must lie inside the reference's dirty set (each at most once, only inside the read's closure) and every node's version must move by exactly its execution count. Map iteration order - which the graph uses to enumerate dependencies - is an owned environment answer: every history is also executed with each single map iteration started at every alternative position. The graph also holds a parameter.File leaf (a parameter kind with a version counter of its own) with two nodes below it, and its processors fail (error, empty value) on one input value: a failed node has executed like any other. Quick: depth 4; thorough: depth 5 whose last level tries the read operations only (a last non-read operation has nothing after it to show its effect), deviations to depth 4, deviation pairs to depth 3.",
     "level_note": "Trusted: the reference evaluator / dirty-set model in harness/props/c11m and the one-line runtime/map.go overlay (iteration start taken from a table; orders the real runtime can produce). Not covered: histories deeper than the bound, graphs other than the harness graph, maps with more than 32 entries.",
     "jobs": [{"variant": "maprt-c11", "id": "C11m"}],
     "budget": {"quick": 120, "thorough": 1200},
